@@ -19,7 +19,7 @@ for d in sorted(p for p in S.iterdir() if p.is_dir()):
     m['detection'] = {'own_check': kind, 'own_check_summary': own.get('summary', ''), 'other_checks_red': others,
                       'note': notes.get(d.name, '')}
     m['ran_by_verifier'] = [f'harness/confirm_mutant.sh {d.name} full  -> {conf}',
-                            f'harness/mutants.py {d.name}  (git -C /repo apply patch.diff; ./check {m["property"]} quick; git -C /repo checkout -- .)']
+                            f'harness/mutants.py {d.name}  (git -C /repo apply patch.diff; ./check {m["property"]} quick; git -C /repo checkout -- .)  or harness/pmutants.py (same, on a scratch worktree + scratch copy of /verif)']
     (d / 'meta.json').write_text(json.dumps(m, indent=1))
     what = m.get('what', '').split('. ')[0][:150]
     rows.append(f'| {d.name} | {m["property"]} | {what} | {kind}{" + " + ",".join(others) if others else ""} | {notes.get(d.name, "")} |')
